@@ -20,7 +20,7 @@ func init() {
 	core.Register(&core.Check{
 		ID:    "C33",
 		Level: "exploration",
-		Rule: "split: marked documents with 1..16 (thorough 30) pages x span 1..pages+1 through SplitRaw and through Split into a directory; x every page-number list of length <=2 (and {2, n/2, n} triples) through SplitByPageNr; merge: every sequence of 1-3 documents out of 6 (page counts 1,2,3,5; one with inherited attributes, one with shared indirect page attributes, one hand-built AcroForm) through MergeRaw with divider pages off/on, every ordered pair through MergeCreateZip, and file-based create/append; oracle: concatenated markers of the parts equal the original sequence (merge: concatenation / interleaving, blank dividers only where requested), inputs byte-identical afterwards; " +
+		Rule: "split: marked documents with 1..16 (thorough 30) pages x span 1..pages+1 through SplitRaw and through Split into a directory; x every page-number list of length <=2 (and {2, n/2, n} triples) through SplitByPageNr; merge: every sequence of 1-3 documents out of 8 (page counts 1,2,3,5; one with inherited attributes, one with shared indirect page attributes, two with unused object numbers below /Size, one hand-built AcroForm) through MergeRaw with divider pages off/on, every ordered pair through MergeCreateZip, and file-based create/append; oracle: concatenated markers of the parts equal the original sequence (merge: concatenation / interleaving, blank dividers only where requested), inputs byte-identical afterwards; " +
 			"non-trivial = a case with a final short part, more than one input, or unequal lengths (zip)",
 		Run: runC33,
 	})
@@ -240,7 +240,8 @@ func runC33(r *core.R) {
 	// two inputs in other producers' style: pages sharing one indirect /MediaBox array and one /Resources
 	// dictionary (3 pages), and a hand-built AcroForm (1 page)
 	for _, f := range docgen.Family(true) {
-		if f.Name == "numbering=dense,extra=shared-indirect-attrs/classic" {
+		if f.Name == "numbering=dense,extra=shared-indirect-attrs/classic" || f.Name == "numbering=gaps,extra=none/classic" || f.Name == "numbering=gaps,extra=none/xrefstream" {
+			// (the gapped ones leave object numbers below /Size unused, as incrementally edited files do)
 			srcs = append(srcs, src{f.Bytes, seq(1, 3)})
 		}
 	}
